@@ -149,11 +149,12 @@ let print_line (line : Stdlib.String.t) =
   match parts with
   | id :: rest ->
     toks := Array.of_list rest; pos := 0;
-    let _ = next () in
+    let first = next () in
+    let ind = if Stdlib.String.length first > 4 && Stdlib.String.sub first 0 4 = "ind=" then Some (hb (Stdlib.String.sub first 4 (Stdlib.String.length first - 4))) else None in
     let nt = next_int () in
     let xs = times nt parse_table in
     let one x =
-      match print_table x with
+      match (match ind with Some i -> print_table_ind i x | None -> print_table x) with
       | None -> "err"
       | Some t ->
         let idx = Stdlib.List.map (fun i -> match print_index x.x_t i with Some s -> hex s | None -> "ERR") x.x_t.t_idx in
@@ -162,9 +163,11 @@ let print_line (line : Stdlib.String.t) =
     Printf.printf "%s %s\n" id o
   | [] -> ()
 
+let script_line_ref : (Stdlib.String.t -> unit) ref = ref (fun _ -> ())
 (* ---- mode "dump": <id> dump <hex table>|<hex ref>:<hex ref>,...  ->  <id> creates <hex>,... *)
 let dump_line line =
   match Stdlib.String.split_on_char ' ' line with
+  | _ :: ("script" | "scriptx") :: _ -> script_line_ref.contents line
   | id :: "dump" :: rest ->
     let ts = (match rest with [] -> "" | x :: _ -> x) in
     let tables = if ts = "" then [] else Stdlib.String.split_on_char ',' ts in
@@ -175,6 +178,36 @@ let dump_line line =
      | Some names -> Printf.printf "%s creates %s\n" id (Stdlib.String.concat "," (Stdlib.List.map hex names))
      | None -> Printf.printf "%s err\n" id)
   | _ -> ()
+
+(* ---- mode "dump", second line kind: <id> script|scriptx <bound 0|1> <table>,...   with
+   table = <hex name>|<hex ref>:<hex ref>|<idx>;<idx>   idx = <hex name>~<hex origin or ->~<x or hex col:hex col>
+   ->  <id> objs T<hex>,I<hex>@<hex>,... [exec=ok|clash]   (scriptx: without the verdict of the catalogue replay) *)
+let script_line line =
+  match Stdlib.String.split_on_char ' ' line with
+  | id :: kw :: b :: rest ->
+    let ts = (match rest with [] -> "" | x :: _ -> x) in
+    let tables = if ts = "" then [] else Stdlib.String.split_on_char ',' ts in
+    let un h = hb (if h = "" then "-" else h) in
+    let one_idx s = (match Stdlib.String.split_on_char '~' s with
+      | [n; o; cols] ->
+        ((un n, (if o = "-" then None else Some (un o))),
+         (if cols = "x" then None else Some (Stdlib.List.map un (if cols = "" then [] else Stdlib.String.split_on_char ':' cols))))
+      | _ -> failwith "script: bad index token") in
+    let one t = (match Stdlib.String.split_on_char '|' t with
+      | [n; refs; idxs] ->
+        ((un n, Stdlib.List.map un (if refs = "" then [] else Stdlib.String.split_on_char ':' refs)),
+         Stdlib.List.map one_idx (if idxs = "" then [] else Stdlib.String.split_on_char ';' idxs))
+      | _ -> failwith "script: bad table token") in
+    (match dump_script (b = "1") (Stdlib.List.map one tables) with
+     | Some (os, ok) ->
+       let o = Stdlib.String.concat "," (Stdlib.List.map (function
+         | OTable (n, _) -> "T" ^ hex n | OIndex (i, t) -> "I" ^ hex i ^ "@" ^ hex t | OOther -> "?") os) in
+       if kw = "script" then Printf.printf "%s objs %s exec=%s\n" id (or_dash o) (if ok then "ok" else "clash")
+       else Printf.printf "%s objs %s\n" id (or_dash o)
+     | None -> Printf.printf "%s err\n" id)
+  | _ -> ()
+
+let () = script_line_ref := script_line
 
 (* ---- mode "fault": <id> faults <n1>,<n2>,...  ->  <id> reads=<N> outcomes=err,... *)
 let rec nat_of_int i = if i <= 0 then O else S (nat_of_int (i - 1))
